@@ -73,7 +73,7 @@ struct spai0 {
                 value_type v = A_loc.val[j];
                 scalar_type norm_v = math::norm(v);
                 den += norm_v * norm_v;
-                if (A_loc.col[j] == i) num += v;
+                if (A_loc.col[j] == i) num += math::adjoint(v);
             }
 
             for(ptrdiff_t j = A_rem.ptr[i], e = A_rem.ptr[i+1]; j < e; ++j) {
